@@ -142,6 +142,7 @@ type Step struct {
 	NoVer   bool              `json:"no_version,omitempty"`
 	Plan    simrt.Plan        `json:"plan"`
 	Plain   bool              `json:"plain,omitempty"`    // run the uninstrumented twin
+	Race    bool              `json:"race,omitempty"`     // run the instrumented binary built with the race detector
 	ExePath string            `json:"exe_path,omitempty"` // run a private copy of the binary at this path (relative to the sandbox root)
 	UnsetCI bool              `json:"unset_ci,omitempty"`
 }
@@ -438,6 +439,9 @@ func (sb *Sandbox) Run(st Step) Result {
 	if st.Plain {
 		bin = filepath.Join(sb.sim.BuildDir, "crs-plain")
 	}
+	if st.Race {
+		bin = filepath.Join(sb.sim.BuildDir, "crs-race")
+	}
 	if st.ExePath != "" {
 		bin = filepath.Join(sb.W, st.ExePath)
 	}
@@ -535,4 +539,9 @@ func (sb *Sandbox) Run(st Step) Result {
 func isDir(p string) bool {
 	fi, err := os.Stat(p)
 	return err == nil && fi.IsDir()
+}
+
+func isFile(p string) bool {
+	fi, err := os.Stat(p)
+	return err == nil && fi.Mode().IsRegular()
 }
